@@ -239,6 +239,13 @@ def check_model(inv, specs, trace, oc, out_v, label=None):
                 elif a in declared_ns and b.endswith('Serializer') and (a, b) not in declared_types:
                     out_v.append(viol('swift-undeclared-type:serializer', 'output refers to %s.%s, which is not declared' % (a, b), inputs))
         elif backend == 'swift_client' and '--objc' not in args:
+            # qualified type names <Ns>.<Type> used by the client must be types the spec declares in that namespace
+            _decl, crefs = swift_scan(codes)
+            c_ns = {pascal(nsn) for nsn in namespaces}
+            c_types = {(pascal(nsn), d.name) for nsn, d in types} | {(pascal(nsn), d.name + 'Serializer') for nsn, d in types}
+            for a, b in sorted(crefs):
+                if a in c_ns and (a, b) not in c_types:
+                    out_v.append(viol('swift-client-undeclared-type', 'swift_client output refers to %s.%s, which the spec does not declare in namespace %s' % (a, b, a), inputs))
             # <Ns>Routes.swift refers to the route objects <Ns>.<route> that swift_types declares: resolve them against its output for the same spec
             tres = impl.backend_outputs(impl.compile_specs(specs).api, ['swift_types'], args_override={'swift_types': []})['swift_types']
             if 'crash' not in tres:
@@ -304,10 +311,25 @@ def check_model(inv, specs, trace, oc, out_v, label=None):
     return n
 
 
-SHAPES = ['Int32', 'String?', 'List(String)', 'List(String?)', 'Map(String, Int32)', 'Map(String, Plain)', 'Map(String, List(Plain))', 'List(Map(String, Plain))',
-          'List(List(Plain))', 'Map(String, Map(String, Plain))', 'List(Map(String, List(Plain)))', 'Map(String, List(Uni))', 'List(Plain?)', 'Map(String, List(other.Fo))',
-          'Plain', 'Plain?', 'Tree', 'Tree?', 'List(Tree)', 'Map(String, Tree)', 'Uni', 'Uni?', 'List(Uni)', 'Map(String, Uni)', 'Alp', 'List(Alp)', 'Map(String, Alp)',
-          'Bytes', 'Timestamp("%Y")', 'Float64', 'Boolean', 'UInt64', 'other.Fo', 'List(other.Fo)', 'Map(String, other.Fo)']
+LEAVES = ['Int32', 'String', 'Bytes', 'Timestamp("%Y")', 'Float64', 'Boolean', 'UInt64', 'Plain', 'Tree', 'Uni', 'Alp', 'other.Fo']
+WRAPS1 = ['%s', '%s?', 'List(%s)', 'List(%s?)', 'Map(String, %s)', 'List(%s)?']
+WRAPS2 = ['List(List(%s))', 'List(Map(String, %s))', 'Map(String, List(%s))', 'Map(String, Map(String, %s))', 'List(List(%s)?)', 'List(List(%s?))', 'Map(String, List(%s)?)']
+WRAPS3 = ['List(List(List(%s)))', 'List(Map(String, List(%s)))', 'Map(String, List(List(%s)))', 'Map(String, Map(String, List(%s)))', 'List(List(Map(String, %s)))']
+TIER = ['quick']
+
+
+def all_shapes(tier):
+    """Complete product: every leaf type under every wrapper combination up to nesting 2 (quick) / 3 (thorough)."""
+    wraps = WRAPS1 + WRAPS2 + (WRAPS3 if tier != 'quick' else [])
+    out = []
+    for leaf in LEAVES:
+        for w in wraps:
+            out.append(w % leaf)
+    if tier == 'quick':
+        out += [w % leaf for w in WRAPS3[:2] for leaf in ('String', 'Plain', 'Uni')]
+    return out
+
+
 DEFAULTS = [('Int32', '3'), ('String', '"s"'), ('String', '"a b \\"q\\""'), ('Boolean', 'true'), ('Float64', '1.5'), ('UInt64', '7'), ('Uni', 'va'), ('Alu', 'va'), ('other.Afu', 'fa'),
             ('Bytes', '"YWJj"'), ('Timestamp("%Y")', '"2000"')]
 
@@ -321,7 +343,7 @@ def shape_specs():
                   ('sh', T('Uni', False, [Mem('va'), Mem('vb')]))]
     nss = ['other', 'sh']
     out = []
-    for sh in SHAPES:
+    for sh in all_shapes(TIER[0]):
         out.append(('field:' + sh, [base_other, ('sh.stone', common + 'struct H\n    f %s\n' % sh), ('cfg.stone', c12.CFG)], (nss, base_types + [('sh', T('H', True, [Mem('f')]))], [])))
         out.append(('tag:' + sh, [base_other, ('sh.stone', common + 'union Hu\n    t %s\n' % sh), ('cfg.stone', c12.CFG)], (nss, base_types + [('sh', T('Hu', False, [Mem('t')]))], [])))
         for slot, sig in (('arg', '%s, Void, Void'), ('result', 'Void, %s, Void'), ('error', 'Void, Void, %s')):
@@ -335,6 +357,10 @@ def shape_specs():
             ('routes-only:void', 'route ping(Void, Void, Void)\n\nroute pong:2(Void, Void, Void)\n', [Rt('ping'), Rt('pong', 2)]),
             ('routes-only:imported', 'route get(sh.Plain, sh.Uni, sh.Uni)\n    attrs\n        style = "rpc"\n', [Rt('get')]),
             ('routes-only:alias', 'alias Pl = sh.Plain\n\nroute get(Pl, Void, Void)\n', [Rt('get')]),
+            ('routes-only:imported-union-arg', 'route getu(sh.Uni, Void, Void)\n    attrs\n        style = "rpc"\n', [Rt('getu')]),
+            ('routes-only:imported-union-arg-upload', 'route getu(sh.Uni, sh.Plain, Void)\n    attrs\n        style = "upload"\n', [Rt('getu')]),
+            ('routes-only:imported-tree', 'route gett(sh.Tree, sh.Tree, sh.Tree)\n    attrs\n        style = "download"\n', [Rt('gett')]),
+            ('routes-only:alias-of-union', 'alias Ul = sh.Uni\n\nroute geta(Ul, Ul, Void)\n', [Rt('geta')]),
             ('aliases-only', 'alias Pl = sh.Plain\n\nalias Ls = List(sh.Uni)\n', []),
             ('empty-ns', '', [])):
         out.append(('namespace:' + lab, [base_other, ('sh.stone', common), ('ro.stone', 'namespace ro\n\nimport sh\n\n' + body), ('cfg.stone', c12.CFG)],
@@ -363,6 +389,7 @@ def task(item):
 
 
 def run(tier, seed):
+    TIER[0] = tier
     r = explore.Run(PROP, tier, seed)
     states = c01.gather_states(tier, r, budget=100 if tier == 'quick' else 500)
     # the attrs families use schemas without auth/host/style: the client backends need those, keep them for the types backends only
@@ -370,7 +397,7 @@ def run(tier, seed):
     shapes = shape_specs()
     items += [('shape', lab, sp, inv) for lab, sp, inv in shapes]
     r.bounds.update({'configurations': [b + ' ' + ' '.join(a[:1] if a and a[0] == '--objc' else []) for b, a in CONFIGS], 'models': len(items) - len(shapes),
-                     'shape_specs': len(shapes), 'shapes': SHAPES})
+                     'shape_specs': len(shapes), 'shape_leaves': LEAVES, 'shape_wrappers': WRAPS1 + WRAPS2 + (WRAPS3 if tier != 'quick' else WRAPS3[:2])})
     r.sample({'shape': shapes[3][0], 'specs': shapes[3][1][1][1][-300:]})
     r.run_tasks(task, items, budget=600, chunksize=4)
     r.assumptions = ['no Swift / Objective-C compiler is available: lexical well-formedness, declaration coverage and name resolution are decided by scanners written for the purpose',
